@@ -13,6 +13,7 @@
 package main
 
 import (
+	"context"
 	"fmt"
 	"os"
 	"path/filepath"
@@ -23,8 +24,9 @@ import (
 
 	"lunar/engine/actions"
 	messages "lunar/engine/messages"
+	"lunar/engine/metrics"
+	"lunar/engine/routing"
 	"lunar/engine/streams"
-	streamconfig "lunar/engine/streams/config"
 	lunarcontext "lunar/engine/streams/lunar-context"
 	publictypes "lunar/engine/streams/public-types"
 	"lunar/engine/streams/resources"
@@ -33,6 +35,9 @@ import (
 	"lunar/toolkit-core/clock"
 	contextmanager "lunar/toolkit-core/context-manager"
 
+	"github.com/negasus/haproxy-spoe-go/message"
+	"github.com/negasus/haproxy-spoe-go/payload/kv"
+	"github.com/negasus/haproxy-spoe-go/request"
 	"github.com/rs/zerolog"
 
 	"verif/harness/internal/proto"
@@ -212,73 +217,69 @@ func quotaYAML(qs []quotaCfg) string {
 	return b.String()
 }
 
-func flowYAML(q int) string {
+// flowYAML: the user flow of quota q.  Variant bits: 1 = a request-rewriting processor (TransformAPICall) runs
+// before the Limiter, 2 = one runs after the Limiter's below_limit branch.  Whatever else the flow does to the
+// request, an above-limit request must leave the engine with the early response.
+func flowYAML(q int, variant int) string {
 	n := fmt.Sprintf("f%d", q)
-	return fmt.Sprintf(`name: flow_%[1]s
-filter:
-  url: %[2]s/%[1]s
-processors:
-  Lim_%[1]s:
-    processor: Limiter
-    parameters:
-      - key: quota_id
-        value: q%[3]d
-  Gen_%[1]s:
-    processor: GenerateResponse
-    parameters:
-      - key: status
-        value: 429
-      - key: body
-        value: Too Many Requests
-      - key: Content-Type
-        value: text/plain
-flow:
-  request:
-    - from:
-        stream:
-          name: globalStream
-          at: start
-      to:
-        processor:
-          name: Lim_%[1]s
-    - from:
-        processor:
-          name: Lim_%[1]s
-          condition: above_limit
-      to:
-        processor:
-          name: Gen_%[1]s
-    - from:
-        processor:
-          name: Lim_%[1]s
-          condition: below_limit
-      to:
-        stream:
-          name: globalStream
-          at: end
-  response:
-    - from:
-        processor:
-          name: Gen_%[1]s
-      to:
-        stream:
-          name: globalStream
-          at: end
-    - from:
-        stream:
-          name: globalStream
-          at: start
-      to:
-        stream:
-          name: globalStream
-          at: end
-`, n, host, q)
+	var b strings.Builder
+	fmt.Fprintf(&b, "name: flow_%s\nfilter:\n  url: %s/%s\nprocessors:\n", n, host, n)
+	fmt.Fprintf(&b, "  Lim_%s:\n    processor: Limiter\n    parameters:\n      - key: quota_id\n        value: q%d\n", n, q)
+	fmt.Fprintf(&b, "  Gen_%s:\n    processor: GenerateResponse\n    parameters:\n      - key: status\n        value: 429\n"+
+		"      - key: body\n        value: Too Many Requests\n      - key: Content-Type\n        value: text/plain\n", n)
+	transform := func(name, hdr string) {
+		fmt.Fprintf(&b, "  %s_%s:\n    processor: TransformAPICall\n    parameters:\n      - key: set\n        value:\n"+
+			"          $.request.headers.%s: v\n", name, n, hdr)
+	}
+	if variant&1 != 0 {
+		transform("Pre", "x-pre")
+	}
+	if variant&2 != 0 {
+		transform("Post", "x-post")
+	}
+	conn := func(from, cond, to string) {
+		b.WriteString("    - from:\n")
+		if from == "" {
+			b.WriteString("        stream:\n          name: globalStream\n          at: start\n")
+		} else {
+			fmt.Fprintf(&b, "        processor:\n          name: %s\n", from)
+			if cond != "" {
+				fmt.Fprintf(&b, "          condition: %s\n", cond)
+			}
+		}
+		b.WriteString("      to:\n")
+		if to == "" {
+			b.WriteString("        stream:\n          name: globalStream\n          at: end\n")
+		} else {
+			fmt.Fprintf(&b, "        processor:\n          name: %s\n", to)
+		}
+	}
+	lim, gen := "Lim_"+n, "Gen_"+n
+	b.WriteString("flow:\n  request:\n")
+	if variant&1 != 0 {
+		conn("", "", "Pre_"+n)
+		conn("Pre_"+n, "", lim)
+	} else {
+		conn("", "", lim)
+	}
+	conn(lim, "above_limit", gen)
+	if variant&2 != 0 {
+		conn(lim, "below_limit", "Post_"+n)
+		conn("Post_"+n, "", "")
+	} else {
+		conn(lim, "below_limit", "")
+	}
+	b.WriteString("  response:\n")
+	conn(gen, "", "")
+	conn("", "", "")
+	return b.String()
 }
 
 type world struct {
 	level int
 	rm    *resources.ResourceManagement
 	st    *streams.Stream
+	handler routing.MessageHandler
 	clk   *clock.MockClock
 	known map[int]bool
 	cur   int64
@@ -292,7 +293,7 @@ func (w *world) setTime(t int64) {
 	}
 }
 
-func build(qs []quotaCfg, level int, t0 int64, lim map[int]bool) (*world, error) {
+func build(qs []quotaCfg, level int, t0 int64, lim map[int]bool, variant int) (*world, error) {
 	dir, err := os.MkdirTemp("", "c01-")
 	if err != nil {
 		return nil, err
@@ -332,7 +333,7 @@ func build(qs []quotaCfg, level int, t0 int64, lim map[int]bool) (*world, error)
 		if !lim[q.id] {
 			continue // no user flow names this quota
 		}
-		if err := os.WriteFile(filepath.Join(dir, "flows", fmt.Sprintf("f%d.yaml", q.id)), []byte(flowYAML(q.id)), 0o644); err != nil {
+		if err := os.WriteFile(filepath.Join(dir, "flows", fmt.Sprintf("f%d.yaml", q.id)), []byte(flowYAML(q.id, variant)), 0o644); err != nil {
 			return w, err
 		}
 	}
@@ -344,7 +345,37 @@ func build(qs []quotaCfg, level int, t0 int64, lim map[int]bool) (*world, error)
 		return w, err
 	}
 	w.st = st
+	// the verdict is observed where it leaves the engine: the SPOE actions the real message handler of
+	// routing answers HAProxy with (return_early_response = the request is NOT forwarded)
+	contextmanager.Get().WithContext(context.Background())
+	mm, _ := metrics.NewMetricManager()
+	w.handler = routing.VerifHandlerForStream(st, mm)
 	return w, nil
+}
+
+// spoeRequest: the lunar-on-request message HAProxy sends for a request.
+func spoeRequest(q int, r string, hdrs map[string]string) *request.Request {
+	path := fmt.Sprintf("/f%d", q)
+	var names []string
+	for k := range hdrs {
+		names = append(names, k)
+	}
+	sort.Strings(names)
+	var hb strings.Builder
+	for _, k := range names {
+		hb.WriteString(k + ": " + hdrs[k] + "\r\n")
+	}
+	keyValues := kv.NewKV()
+	keyValues.Add("id", r)
+	keyValues.Add("sequence_id", r)
+	keyValues.Add("method", "GET")
+	keyValues.Add("scheme", "https")
+	keyValues.Add("url", host+path)
+	keyValues.Add("path", path)
+	keyValues.Add("query", "")
+	keyValues.Add("headers", hb.String())
+	keyValues.Add("body", []byte(""))
+	return &request.Request{Messages: &message.Messages{{Name: "lunar-on-request", KV: keyValues}}}
 }
 
 // headers parses `i:v,i:v` strictly (v = d or a number >= 1); later entries override earlier ones.
@@ -468,8 +499,17 @@ func exec(c proto.Case, o *proto.Out) []string {
 					lim[q.id] = true
 				}
 			}
+			// fv=<0..3>: flow variant (request-rewriting processors around the Limiter), level 2 only
+			variant := int64(0)
+			if _, has := proto.KV(f, "fv"); has {
+				var okv bool
+				if variant, okv = kvI(f, "fv"); !okv || variant > 3 {
+					outs[i] = "bad-op"
+					continue
+				}
+			}
 			var err error
-			w, err = build(qs, int(lvl), t0, lim)
+			w, err = build(qs, int(lvl), t0, lim, int(variant))
 			if err != nil {
 				if os.Getenv("VERIF_DEBUG") != "" {
 					fmt.Fprintln(os.Stderr, "load error:", err)
@@ -547,18 +587,14 @@ func exec(c proto.Case, o *proto.Out) []string {
 					outs[i] = "err:level"
 					continue
 				}
-				acts := &streamconfig.StreamActions{
-					Request:  &streamconfig.RequestStream{},
-					Response: &streamconfig.ResponseStream{},
-				}
-				if err := w.st.ExecuteFlow(as, acts); err != nil {
-					outs[i] = "err:exec"
-					continue
-				}
+				sreq := spoeRequest(int(q), "r"+r, hd)
+				w.handler(sreq)
 				refused := false
-				for _, a := range acts.Request.Actions {
-					if _, ok := a.(*actions.EarlyResponseAction); ok {
-						refused = true
+				for _, a := range sreq.Actions {
+					if a.Name == actions.ReturnEarlyResponseActionName {
+						if flag, ok := a.Value.(bool); ok && flag {
+							refused = true
+						}
 					}
 				}
 				if refused {
